@@ -47,10 +47,8 @@ def apMode (v : List Cap) (f : Fam) : Nat :=
   | some x => x.2
   | none => 0
 def hasEnh (v : List Cap) (f : Fam) : Bool := (enhCaps v).flatten.any (fun x => x.1 == f && x.2 == 2)
-def emBoth (l r : List Cap) : Bool :=
-  l.any (fun c => match c with | .em => true | _ => false) && r.any (fun c => match c with | .em => true | _ => false)
-def as4Both (l r : List Cap) : Bool :=
-  l.any (fun c => match c with | .as4 _ => true | _ => false) && r.any (fun c => match c with | .as4 _ => true | _ => false)
+def emBoth (l r : List Cap) : Bool := hasEm l && hasEm r
+def as4Both (l r : List Cap) : Bool := hasAs4 l && hasAs4 r
 
 def maxFrame (i : Input) : Nat := if emBoth i.loc i.rem then 65535 else 4096
 def famNegotiated (i : Input) (f : Fam) : Bool := hasMp i.loc f && hasMp i.rem f
@@ -252,15 +250,18 @@ def carried : Parsed → List Carried × List Carried
        (u.toList.map (fun x => ⟨x.1, none, x.2⟩)) ++ (mu.toList.map (fun x => ⟨x.1, none, x.2⟩)))
   | _ => ([], [])
 
+def entryIsOpq (e : Entry) : Bool := match e.nlri with | .opq .. => true | _ => false
+def dentryIsIp : DEntry → Bool | .ip .. => true | _ => false
+def dentryPid : DEntry → Nat | .o p _ => p | .ip _ _ _ p => p
+
 def compareEntries (input : List Entry) (got : List DEntry) : Option String :=
-  let isOpq := input.any (fun e => match e.nlri with | .opq .. => true | _ => false)
-  if isOpq then
+  if input.any entryIsOpq then
     -- impl-only families: the real decoder's own equality verdicts + path ids
     if got.length < input.length then some "entries-dropped"
     else if got.length > input.length then some "entries-duplicated"
     else if got.any DEntry.isBad then some "entries-differ"
-    else if got.any (fun d => match d with | .ip .. => true | _ => false) then some "entries-differ"
-    else if (input.map (·.pid)) ≠ got.map (fun d => match d with | .o p _ => p | .ip _ _ _ p => p) then some "path-ids-differ"
+    else if got.any dentryIsIp then some "entries-differ"
+    else if (input.map (·.pid)) ≠ got.map dentryPid then some "path-ids-differ"
     else none
   else
     let a := sortNat (input.filterMap inKey)
@@ -274,6 +275,29 @@ def isMsg : DRes → Option Parsed
   | .msg p => some p
   | _ => none
 
+/-- a decoded message that is not a route UPDATE (an End-of-RIB look-alike is tolerated for an empty input) -/
+def notRouteUpd (esEmpty : Bool) : Parsed → Bool
+  | .upd .. => false
+  | .eor _ => !esEmpty
+  | _ => true
+
+/-- attributes of one decoded UPDATE that carries reachable entries, against the expected (sorted, canonical) list -/
+def attrsVerdict (want : List Attr) : Parsed → Option String
+  | .upd r mr _ _ got errs =>
+      if r.isNone && mr.isNone then none
+      else if !errs.isEmpty then some "attribute-errors-at-peer"
+      else
+        let g := sortAttrs (got.map canonAttr)
+        if g == want then none
+        else if (g.map (·.code)) ≠ want.map (·.code) then some "attribute-set-differs"
+        else match (g.zip want).find? (fun x => x.1 ≠ x.2) with
+          | some x =>
+              if x.1.code = 2 then some "as-path-differs"
+              else if x.1.data ≠ x.2.data then some "attribute-value-differs"
+              else some "attribute-flags-differ"
+          | none => some "attributes-differ"
+  | _ => none
+
 def checkUpdate (i : Input) (f : Fam) (reach : Bool) (nh : Option Nh) (attrs : List Attr) (es : List Entry)
     (ps : List Parsed) : Option String :=
   -- every decoded message is a route UPDATE (or, for an empty input, possibly an End-of-RIB look-alike)
@@ -282,7 +306,7 @@ def checkUpdate (i : Input) (f : Fam) (reach : Bool) (nh : Option Nh) (attrs : L
   let unreachS := sections.flatMap (·.2)
   let mine := if reach then reachS else unreachS
   let other := if reach then unreachS else reachS
-  if ps.any (fun p => match p with | .upd .. => false | .eor _ => !es.isEmpty | _ => true) then some "decoded-kind-differs"
+  if ps.any (notRouteUpd es.isEmpty) then some "decoded-kind-differs"
   else if other.any (fun c => !c.ents.isEmpty) then some "decoded-kind-differs"
   else if mine.any (fun c => c.fam ≠ f) then some "family-differs"
   else match compareEntries es (mine.flatMap (·.ents)) with
@@ -290,23 +314,7 @@ def checkUpdate (i : Input) (f : Fam) (reach : Bool) (nh : Option Nh) (attrs : L
     | none =>
       if reach then
         if mine.any (fun c => c.nh ≠ some nh) then some "nexthop-differs"
-        else
-          let want := sortAttrs (attrs.map canonAttr)
-          firstSome ps (fun p => match p with
-            | .upd r mr _ _ got errs =>
-                if r.isNone && mr.isNone then none
-                else if !errs.isEmpty then some "attribute-errors-at-peer"
-                else
-                  let g := sortAttrs (got.map canonAttr)
-                  if g == want then none
-                  else if (g.map (·.code)) ≠ want.map (·.code) then some "attribute-set-differs"
-                  else match (g.zip want).find? (fun x => x.1 ≠ x.2) with
-                    | some x =>
-                        if x.1.code = 2 then some "as-path-differs"
-                        else if x.1.data ≠ x.2.data then some "attribute-value-differs"
-                        else some "attribute-flags-differ"
-                    | none => some "attributes-differ"
-            | _ => none)
+        else firstSome ps (attrsVerdict (sortAttrs (attrs.map canonAttr)))
       else
         let _ := i
         none
@@ -388,74 +396,90 @@ def encodable (i : Input) : Bool :=
       23 + attrsLen + over + first ≤ maxFrame i
   | _ => true
 
+/-- first failing clause of a sequence (each clause is only evaluated if the earlier ones passed) -/
+def orElse' (a : Option String) (b : Unit → Option String) : Option String :=
+  match a with
+  | some s => some s
+  | none => b ()
+
+/-- framing: the stream is exactly `n` frames with marker, consistent header length, size ≤ negotiated maximum,
+    the right type and mutually consistent inner length fields -/
+def frameClause (i : Input) (n : Nat) (stream : Bytes) : Option String :=
+  let (frames, rest) := splitFrames stream
+  if !rest.isEmpty then some "stream-not-delimitable"
+  else if frames.length ≠ n then some "frame-count-differs"
+  else if frames.isEmpty then some "no-frame"
+  else if !frames.all markerOk then some "bad-marker"
+  else if frames.any (fun fr => fr.length > maxFrame i) then
+    -- an oversize frame that carries no NLRI at all: the attribute block alone does not fit
+    if expectedType i.msg = 2 ∧ frames.any (fun fr => fr.length > maxFrame i && !frameHasNlri fr)
+    then some "frame-exceeds-max-no-nlri" else some "frame-exceeds-max"
+  else if frames.any (fun fr => beNat ((fr.drop 18).take 1) ≠ expectedType i.msg) then some "wrong-message-type"
+  else firstSome frames frameLengths
+
+/-- byte-level partition for the impl-only families: the MP NLRI regions of the frames concatenate to the
+    wire bytes of the input entries -/
+def opaqueClause (i : Input) (frames : List Bytes) : Option String :=
+  match i.msg with
+  | .reach f _ _ es | .unreach f es =>
+      (match opaqueRegion (addPathTx i f) es with
+       | some want =>
+           let got := frames.flatMap (fun fr =>
+             match updateSections (fr.drop 19) with
+             | some sec => ((tlvs sec.attrs).1.filter (fun r => r.code = 14 ∨ r.code = 15)).flatMap mpRegion
+             | none => [])
+           if got == want then none
+           else if got.length < want.length then
+             (if frames.any (fun fr => !frameHasNlri fr) then some "entries-dropped-at-empty-frame" else some "entries-dropped")
+           else some "nlri-bytes-differ"
+       | none => none)
+  | _ => none
+
+/-- the peer decoded every frame -/
+def decodeClause (dec : List DRes) (nframes : Nat) : Option String :=
+  match dec.find? (fun d => (isMsg d).isNone) with
+  | some (.err c s) => some s!"peer-decode-error-{c}-{s}"
+  | some (.short _) => some "peer-decode-incomplete"
+  | some _ => some "peer-decode-panic"
+  | none => if (dec.filterMap isMsg).length ≠ nframes then some "decoded-count-differs" else none
+
+/-- what the peer decoded is what was sent -/
+def contentClause (i : Input) (frames : List Bytes) (ps : List Parsed) : Option String :=
+  let content : Option String :=
+    match i.msg with
+    | .open a h r caps =>
+        if ps == [.open a h r (caps.map canonCap)] then none else some "open-differs"
+    | .notif c s d => if ps == [.notif c s d] then none else some "notification-differs"
+    | .keepalive => if ps == [.keepalive] then none else some "keepalive-differs"
+    | .rr f => if ps == [.rr f] then none else some "route-refresh-differs"
+    | .eor f => if ps == [.eor f] then none else some "end-of-rib-differs"
+    | .reach f nh attrs es => checkUpdate i f true nh attrs es ps
+    | .unreach f es => checkUpdate i f false none [] es ps
+  match content with
+  | some s =>
+      -- entries went missing and one frame carries no NLRI: the "zero entries fit" exit of the chunk loop
+      if s == "entries-dropped" && frames.any (fun fr => !frameHasNlri fr) then some "entries-dropped-at-empty-frame"
+      else some s
+  | none => none
+
+def fpClause : Fp → Option String
+  | .t => none
+  | .na => none
+  | .f => some "fixed-point-differs"
+  | .panic => some "fixed-point-panic"
+
 /-- the clause that fails, if any (before the `encodable` classification) -/
 def checkClause0 (i : Input) (o : Obs) : Option String :=
   match o with
   | .panic => some "panic"
   | .err => some "encode-error"
   | .obs n stream dec fp =>
-    let (frames, rest) := splitFrames stream
-    if !rest.isEmpty then some "stream-not-delimitable"
-    else if frames.length ≠ n then some "frame-count-differs"
-    else if frames.isEmpty then some "no-frame"
-    else if !frames.all markerOk then some "bad-marker"
-    else if frames.any (fun fr => fr.length > maxFrame i) then
-      -- an oversize frame that carries no NLRI at all: the attribute block alone does not fit
-      if expectedType i.msg = 2 ∧ frames.any (fun fr => fr.length > maxFrame i && !frameHasNlri fr)
-      then some "frame-exceeds-max-no-nlri" else some "frame-exceeds-max"
-    else if frames.any (fun fr => beNat ((fr.drop 18).take 1) ≠ expectedType i.msg) then some "wrong-message-type"
-    else match firstSome frames frameLengths with
-    | some s => some s
-    | none =>
-    -- byte-level partition for the impl-only families
-    let opq : Option String :=
-      match i.msg with
-      | .reach f _ _ es | .unreach f es =>
-          (match opaqueRegion (addPathTx i f) es with
-           | some want =>
-               let got := frames.flatMap (fun fr =>
-                 match updateSections (fr.drop 19) with
-                 | some sec => ((tlvs sec.attrs).1.filter (fun r => r.code = 14 ∨ r.code = 15)).flatMap mpRegion
-                 | none => [])
-               if got == want then none
-               else if got.length < want.length then
-                 (if frames.any (fun fr => !frameHasNlri fr) then some "entries-dropped-at-empty-frame" else some "entries-dropped")
-               else some "nlri-bytes-differ"
-           | none => none)
-      | _ => none
-    match opq with
-    | some s => some s
-    | none =>
-    -- what the peer decoded
-    match dec.find? (fun d => (isMsg d).isNone) with
-    | some (.err c s) => some s!"peer-decode-error-{c}-{s}"
-    | some (.short _) => some "peer-decode-incomplete"
-    | some _ => some "peer-decode-panic"
-    | none =>
-    let ps := dec.filterMap isMsg
-    if ps.length ≠ frames.length then some "decoded-count-differs"
-    else
-      let content : Option String :=
-        match i.msg with
-        | .open a h r caps =>
-            if ps == [.open a h r (caps.map canonCap)] then none else some "open-differs"
-        | .notif c s d => if ps == [.notif c s d] then none else some "notification-differs"
-        | .keepalive => if ps == [.keepalive] then none else some "keepalive-differs"
-        | .rr f => if ps == [.rr f] then none else some "route-refresh-differs"
-        | .eor f => if ps == [.eor f] then none else some "end-of-rib-differs"
-        | .reach f nh attrs es => checkUpdate i f true nh attrs es ps
-        | .unreach f es => checkUpdate i f false none [] es ps
-      match content with
-      | some s =>
-          -- entries went missing and one frame carries no NLRI: the "zero entries fit" exit of the chunk loop
-          if s == "entries-dropped" && frames.any (fun fr => !frameHasNlri fr) then some "entries-dropped-at-empty-frame"
-          else some s
-      | none =>
-        match fp with
-        | .t => none
-        | .na => none
-        | .f => some "fixed-point-differs"
-        | .panic => some "fixed-point-panic"
+    let frames := (splitFrames stream).1
+    orElse' (frameClause i n stream) fun _ =>
+    orElse' (opaqueClause i frames) fun _ =>
+    orElse' (decodeClause dec frames.length) fun _ =>
+    orElse' (contentClause i frames (dec.filterMap isMsg)) fun _ =>
+    fpClause fp
 
 /-- the clause that fails, if any -/
 def checkClause (i : Input) (o : Obs) : Option String :=
